@@ -10,17 +10,13 @@ import networkx as nx
 import common, gen, gen2, lpdump, e1, e1err, errlib, props
 
 LEVEL = "proof"
-EXPLANATION = ("Props/C07.v (all closed under the global context): klae_enc_sound — every assignment satisfying the generated rows "
-               "decodes (DAG) to one source-to-sink path per layer, weights in [0,w_max] of the requested type, and Err(e) >= |f(e) - sum_i w_i x_i(e)| "
-               "on every non-ignored edge, so the LP objective is >= the declarative scaled absolute error of the decoded solution; "
-               "klae_enc_complete — every choice of k unit s-t flows (= paths, by C01's decode theorem) and weights whose errors fit the Err bound "
-               "extends to a satisfying assignment with Err = the absolute errors (objective = declarative error); err_fits_bound + wmax_no_loss — clipping "
-               "weights at max f never increases any error and makes all errors fit, so the bound k*max f loses nothing: LP optimum = declarative minimum "
-               "(relative to the solver specification of DESIGN §4; precondition weight_type(max f) = max f, i.e. no truncation by int()). "
-               "klae_reported_objective: get_objective_value of the code as it is (errors weighed by their scaling, /repo 158493f) equals the solver objective for every scaling; klae_objective_old_refuted documents the old plain-sum behaviour. "
-               ""
-               "Completeness is stated for instances without subpath constraints and for paths given as unit flows (10a/10c); cyclic class: E2 only. "
-               "Tie: E1 per instance over the option space; E2 recomputation on every answer, exhaustive optimum (Python search side, exact Fractions) on tiny instances.")
+EXPLANATION = ("Props/C07.v (12 theorems, all closed under the global context). MAIN C07_klae_optimal_checked (one theorem, executable premises klae_premises_b evaluated "
+               "per E1 instance): without given weights, the objective of an optimal satisfying assignment of ErrEnc.encode_klae equals the minimum of "
+               "sum_e scale_e*|f(e) - sum_i w_i [e on path i]| over ALL k source-to-sink paths covering the subpath constraints and ALL non-negative weights of the requested type "
+               "(bound w_max removed by clipping). Parts: klae_enc_sound(_checked), klae_complete (with subpath constraints), wmax_no_loss, err_fits_bound; given weights: "
+               "klae_given_complete / klae_given_optimal (minimum over choices whose errors fit w_max); klae_reported_objective (code as it is) and the refutation of the old plain-sum function. "
+               "Optimality is relative to the solver specification (DESIGN §4). Not proved: given weights together with subpath constraints; cyclic class: E2 only. "
+               "Tie: E1 per instance over the option space + per-instance premises check; E2 recomputation on every answer, exhaustive / closed-form optimum.")
 ASSUMPTIONS = ["HiGHS status kOptimal => returned assignment satisfies the rows within 1e-9 and is optimal (solver specification, DESIGN §4)",
                "float weights: solution values compared with tolerance 1e-6 per route on an element; integer weights: exact",
                "exhaustive optimum: integer weights in [0, max f] (justified by wmax_no_loss), DAGs <= 6 edges, k <= 3"]
@@ -88,6 +84,10 @@ def e1_case(ctx, m, args):
     impl = lpdump.dump_impl(m.solver, e1err.colkey(m, ids))
     req = e1err.request("klae", m, ids, args)
     d = e1.compare(ctx, "E1_kLeastAbsErrors_LP", "klae", m, impl, req, args)
+    try:
+        e1err.theorem_premises(ctx, "E1_kLeastAbsErrors_LP", "klaepremises", m, ids, args)
+    except Exception as e:
+        ctx.report(f"E1_kLeastAbsErrors_LP: optimality-premises check crashed: {e!r}", {"engine": "E1_kLeastAbsErrors_LP"}, concrete=False)
     if d and ctx.engines.get("E1_kLeastAbsErrors_LP", {}).get("disagreements", 0) <= 3:   # keep room for concrete failing inputs
         ctx.report("E1 correspondence broken: LP of kLeastAbsErrors differs from ErrEnc.encode_klae: " + "; ".join(d[:3]),
                    {"class": "kLeastAbsErrors", "args": errlib.describe(args), "diff": d[:12]}, concrete=False)
